@@ -1,7 +1,7 @@
 (* C02 — Inserted values are escaped and cannot change the markup structure. Theorems only.
    (The structure clause is a theorem about the scanner model — structure_invariant below — and is additionally checked
    on the implementation by re-scanning rendered outputs for pairs of inserted strings.) *)
-From Tpl Require Import Html.Scan Html.Exec Proofs.ExecSpec Proofs.EscapeProps Proofs.EmitProps Proofs.HoleSim Proofs.HoleInvariant Proofs.HoleRaw Proofs.HoleEscape.
+From Tpl Require Import Html.Scan Html.Exec Proofs.ExecSpec Proofs.EscapeProps Proofs.EmitProps Proofs.HoleSim Proofs.HoleInvariant Proofs.HoleRaw Proofs.HoleEscape Proofs.Readback.
 Open Scope N_scope.
 
 (* an HTML consumer reads back exactly the evaluated string *)
@@ -99,6 +99,18 @@ Theorem attr_hole_invariant : forall is_space to_lower text_tags attr_prefix (co
        a_value A1 = Some (hole_aval0 S0 ++ s1 ++ upto q post ++ [q]) /\
        a_value A2 = Some (hole_aval0 S0 ++ s2 ++ upto q post ++ [q])).
 Proof. exact HoleInvariant.attr_hole_invariant. Qed.
+(* ---- "HTML-unescaping the emitted text / attribute value yields the original string", end to end through the scanner:
+   escape v placed right after a complete tag and before the next '<' is read back as ONE text token whose value
+   unescapes to v; placed between the quotes of an attribute value it is read back as that attribute's value q ++ x ++ q
+   with unescape x = v. *)
+Theorem text_readback : forall (is_space : rune -> bool) (to_lower : rune -> rune) (text_tags : list str) (attr_prefix : str) pre post v,
+  let run := fold_left (step is_space to_lower text_tags attr_prefix (fun _ => true)) in
+  let scan := scan is_space to_lower text_tags attr_prefix (fun _ => true) in
+  after_tag to_lower text_tags (run pre init) -> (exists rest, post = cLT :: rest) -> v <> [] ->
+  forall toks, scan (pre ++ escape v ++ post) = inl toks ->
+  exists l x st en r, scan pre = inl l /\ toks = l ++ mkTok KText x st en [] [] :: r /\ x = escape v /\ unescape5 x = v.
+Proof. exact Readback.text_readback_nocompile. Qed.
+Print Assumptions text_readback.
 Print Assumptions structure_invariant.
 Print Assumptions text_hole_invariant.
 Print Assumptions attr_hole_invariant.
